@@ -275,6 +275,7 @@ fn backend<B: Backend, P: Prims>(opts: &Opts, rep: &mut Report) {
             continue;
         }
         let mut rng = Rng::derive(opts.seed, &stream, idx);
+        crate::noise::sprinkle::<B>();
         let l: [u8; 32] = rng.arr();
         candidate::<B, P>(rep, Kind::Local, "valid-generated", &l);
         local_relations::<B>(rep, &l, &mut rng);
@@ -312,6 +313,7 @@ fn backend<B: Backend, P: Prims>(opts: &Opts, rep: &mut Report) {
             continue;
         }
         let mut rng = Rng::derive(opts.seed, &stream, idx);
+        crate::noise::sprinkle::<B>();
         match guard(|| <paseto_core::SecretKey<B>>::random()) {
             Ok(Ok(k)) => {
                 let raw = key_bytes(&k);
@@ -334,6 +336,7 @@ fn backend<B: Backend, P: Prims>(opts: &Opts, rep: &mut Report) {
                     continue;
                 }
                 let mut rng = Rng::derive(opts.seed, &stream, idx);
+                crate::noise::sprinkle::<B>();
                 let mut b = match content {
                     0 => vec![0u8; len],
                     1 => vec![0xff; len],
@@ -360,6 +363,7 @@ fn backend<B: Backend, P: Prims>(opts: &Opts, rep: &mut Report) {
             continue;
         }
         let mut rng = Rng::derive(opts.seed, &stream, idx);
+        crate::noise::sprinkle::<B>();
         let (k, len) = *rng.pick(own_len);
         let mut b = rng.bytes(len);
         if B::VER == 3 && len == 49 {
